@@ -3,6 +3,7 @@ package main
 
 import (
 	"fmt"
+	"go/constant"
 	"go/token"
 	"go/types"
 	"strings"
@@ -569,6 +570,40 @@ func ruleGetterPure(c *Ctx, rule string) {
 		n++
 		c.Funcs[funcName(fn)] = true
 		key := funcName(fn) + "/writes-no-receiver-state"
+		// a step of construction written as a method: unexported, and called only from the package's
+		// constructor functions (functions without a receiver), on the value they are building
+		if fn.Object() != nil && !fn.Object().Exported() {
+			callers, onlyCtors := 0, true
+			for _, g := range srcFuncs(sp) {
+				for _, b := range g.Blocks {
+					for _, ins := range b.Instrs {
+						for _, op := range ins.Operands(nil) {
+							if *op != ssa.Value(fn) {
+								continue
+							}
+							ci, isCall := ins.(*ssa.Call)
+							if !isCall || ci.Call.StaticCallee() != fn {
+								onlyCtors = false // used as a value, deferred or spawned
+								continue
+							}
+							callers++
+							if g.Signature.Recv() != nil || g.Parent() != nil {
+								onlyCtors = false
+								continue
+							}
+							// the receiver is an object the constructor allocated
+							if _, fresh := addrRoot(ci.Call.Args[0]).(*ssa.Alloc); !fresh {
+								onlyCtors = false
+							}
+						}
+					}
+				}
+			}
+			if callers > 0 && onlyCtors {
+				c.ok(rule, key, fn.Pos(), "a construction step: unexported and called only by constructor functions on the value they allocate")
+				continue
+			}
+		}
 		var bad *ssa.Store
 		for _, b := range fn.Blocks {
 			for _, ins := range b.Instrs {
@@ -721,7 +756,24 @@ func ruleFoldInit(c *Ctx, rule string, targets [][2]string) {
 					continue
 				}
 				n++
-				isMax := cmp.Op == token.GTR || cmp.Op == token.GEQ
+				// the arm on which the accumulator takes the element: the comparison may be written as the
+				// test that skips the update (if v < max || ... { continue })
+				op := cmp.Op
+				for _, r := range *cmp.Referrers() {
+					ifi, ok := r.(*ssa.If)
+					if !ok {
+						continue
+					}
+					for _, lf := range headerLeaves(l, acc) {
+						if lf.v != cmp.X {
+							continue
+						}
+						if e := forcedEdge(ifi.Block(), lf.from); e == 1 {
+							op = negateOp(cmp.Op)
+						}
+					}
+				}
+				isMax := op == token.GTR || op == token.GEQ
 				const maxInt, minInt = int64(^uint64(0) >> 1), -int64(^uint64(0)>>1) - 1
 				good := (isMax && k == minInt) || (!isMax && k == maxInt)
 				// 32-bit ints
@@ -1516,41 +1568,130 @@ func ruleNoRunes(c *Ctx, rule string) {
 // ---- clampfirst / decodeswitch (C18) ----
 
 func ruleClampFirst(c *Ctx, rule string) {
-	fn := c.fn("alphabet", "Ephred")
-	c.Funcs[funcName(fn)] = true
-	key := funcName(fn) + "/saturate-before-narrowing"
-	var conv *ssa.Convert
-	for _, b := range fn.Blocks {
-		for _, ins := range b.Instrs {
-			if cv, ok := ins.(*ssa.Convert); ok {
-				if bt, ok := cv.X.Type().Underlying().(*types.Basic); ok && bt.Info()&types.IsFloat != 0 && isIntegral(cv.Type()) {
-					conv = cv
+	for _, t := range []struct {
+		name      string
+		needLower bool
+	}{{"Ephred", false}, {"Esolexa", true}} {
+		fn := c.fn("alphabet", t.name)
+		c.Funcs[funcName(fn)] = true
+		key := funcName(fn) + "/saturate-before-narrowing"
+		var convs []*ssa.Convert
+		for _, b := range fn.Blocks {
+			for _, ins := range b.Instrs {
+				if cv, ok := ins.(*ssa.Convert); ok {
+					if bt, ok := cv.X.Type().Underlying().(*types.Basic); ok && bt.Info()&types.IsFloat != 0 && isIntegral(cv.Type()) {
+						convs = append(convs, cv)
+					}
 				}
 			}
 		}
-	}
-	if conv == nil {
-		c.und(rule, key, fn.Pos(), "no float to score conversion")
-		return
-	}
-	// the converted float is bounded above: a phi with a constant edge, or a dominating comparison with a constant
-	bounded := false
-	if phi, ok := conv.X.(*ssa.Phi); ok {
-		for _, e := range phi.Edges {
-			if _, isK := e.(*ssa.Const); isK {
-				bounded = true
+		if len(convs) == 0 {
+			c.und(rule, key, fn.Pos(), "no float to score conversion")
+			continue
+		}
+		constOf := func(v ssa.Value) (float64, bool) {
+			k, ok := v.(*ssa.Const)
+			if !ok || k.Value == nil {
+				return 0, false
 			}
+			f, _ := constant.Float64Val(constant.ToFloat(k.Value))
+			return f, true
 		}
-	}
-	for _, bf := range branchesAt(conv.Block()) {
-		if bf.cond.X == conv.X || bf.cond.Y == conv.X {
-			bounded = true
+		// every conversion is judged; the worst one is reported
+		upper, lower := true, true
+		var conv *ssa.Convert
+		for _, cv := range convs {
+			// the converted float is bounded: a phi with a constant edge, math.Min / math.Max with a
+			// constant, or a dominating comparison with a constant of a value it is derived from by
+			// adding constants and clamping (the sign test that chooses the half to add)
+			up, lo := false, false
+			derived := map[ssa.Value]bool{}
+			var walk func(v ssa.Value, d int)
+			walk = func(v ssa.Value, d int) {
+				if d > 5 || derived[v] {
+					return
+				}
+				derived[v] = true
+				switch x := v.(type) {
+				case *ssa.Phi:
+					for _, e := range x.Edges {
+						if f, ok := constOf(e); ok {
+							if f > 0 && f <= 255 {
+								up = true
+							}
+							if f < 0 && f >= -128 {
+								lo = true
+							}
+							continue
+						}
+						walk(e, d+1)
+					}
+				case *ssa.BinOp:
+					if x.Op == token.ADD || x.Op == token.SUB {
+						if _, ok := constOf(x.Y); ok {
+							walk(x.X, d+1)
+						} else if _, ok := constOf(x.X); ok && x.Op == token.ADD {
+							walk(x.Y, d+1)
+						}
+					}
+				case *ssa.Call:
+					g := x.Call.StaticCallee()
+					if g == nil || g.Pkg == nil || g.Pkg.Pkg.Path() != "math" {
+						return
+					}
+					for _, a := range x.Call.Args {
+						if f, ok := constOf(a); ok {
+							if g.Name() == "Min" && f <= 255 {
+								up = true
+							}
+							if g.Name() == "Max" && f >= -128 {
+								lo = true
+							}
+						} else if g.Name() == "Min" || g.Name() == "Max" {
+							walk(a, d+1)
+						}
+					}
+				}
+			}
+			walk(cv.X, 0)
+			for _, bf := range branchesAt(cv.Block()) {
+				var op token.Token
+				switch {
+				case derived[bf.cond.X]:
+					if _, ok := constOf(bf.cond.Y); !ok {
+						continue
+					}
+					op = effectiveOp(bf, true)
+				case derived[bf.cond.Y]:
+					if _, ok := constOf(bf.cond.X); !ok {
+						continue
+					}
+					op = effectiveOp(bf, false)
+				default:
+					continue
+				}
+				switch op {
+				case token.LSS, token.LEQ:
+					up = true
+				case token.GTR, token.GEQ:
+					lo = true
+				}
+			}
+			if !up || (t.needLower && !lo) || conv == nil {
+				conv = cv
+			}
+			upper, lower = upper && up, lower && lo
 		}
-	}
-	if bounded {
-		c.ok(rule, key, conv.Pos(), "the score is saturated as a float, before the conversion to the one-byte score")
-	} else {
-		c.bad(rule, key, conv.Pos(), "the float score is converted to the one-byte score before it is saturated: values of 256 and more wrap (or are implementation-defined) in the conversion, so the later test can no longer see them and a tiny error probability is given a low score — a smaller probability then means a smaller score")
+		switch {
+		case upper && (lower || !t.needLower):
+			c.ok(rule, key, conv.Pos(), "the score is saturated as a float, before the conversion to the one-byte score")
+		case t.needLower && upper:
+			c.bad(rule, key, conv.Pos(), "the float score is saturated above but not below before it is converted to the signed one-byte score: for an error probability within about 2e-13 of 1 the analytic score is below -128 and the conversion wraps (or is implementation-defined), so the score returned is not the nearest representable one")
+		case t.needLower:
+			c.bad(rule, key, conv.Pos(), "the float score is converted to the signed one-byte score without being saturated: for an error probability within about 2e-13 of 0 or of 1 the analytic score lies outside -128..127 and the conversion wraps (or is implementation-defined) — Esolexa(0.9999999999999998) is 99 — so the score returned is not the nearest representable one and a smaller probability can get a smaller score")
+		default:
+			c.bad(rule, key, conv.Pos(), "the float score is converted to the one-byte score before it is saturated: values of 256 and more wrap (or are implementation-defined) in the conversion, so the later test can no longer see them and a tiny error probability is given a low score — a smaller probability then means a smaller score")
+		}
 	}
 }
 
